@@ -30,7 +30,7 @@ BASE_ASSUMPTIONS = [
 
 ASM_ASSUME = ["operand strings reach the operand classes through Operand.create_from_str unchanged (the classification cascade itself is only checked structurally)"]
 
-prop("C01", ["TAB-1", "TAB-3", "TAB-4", "ENC-1", "ENC-2", "ENC-5", "ENC-7", "WID-1", "WID-3", "WID-5", "LAY-5"],
+prop("C01", ["TAB-1", "TAB-3", "TAB-4", "ENC-1", "ENC-2", "ENC-5", "ENC-7", "WID-1", "WID-3", "WID-8", "WID-5", "LAY-5"],
      "every cell and flag of INSTRUCTIONS equals the MC6809 datasheet map; each operand class reads its own table column and rejects instructions lacking the mode; "
      "on every return path of both indexed encoders the post-byte, the size increment and the width of the offset bytes equal the datasheet form that the path's "
      "conditions describe (register field, 5/8/16-bit two's complement offsets, accumulator offsets, auto inc/dec, PCR, [n], indirect bit); PSH/PUL masks and TFR/EXG "
@@ -49,12 +49,12 @@ prop("C03", ["REL-1", "REL-3", "REL-5", "ENC-1", "ENC-3", "TAB-1", "TAB-2"],
      "that sums max_size over a window covering the displacement including the instruction itself, thresholds 127/128; label+n operands take their index through the address-expression predicate "
      "at all three sites; the PCR offset is target - own address - own size rendered at the chosen width; label,PCR offers post-bytes 8C/8D (9C/9D).",
      "numeric correctness at every distance and for every combination of mutually dependent unsized statements (only margins and identities).", ASM_ASSUME)
-prop("C04", ["EXP-1", "LAY-1", "LAY-3", "WID-3", "WID-6", "ENC-6", "ENC-7", "ESC-1", "REL-3", "REL-5"],
+prop("C04", ["EXP-1", "LAY-1", "LAY-3", "WID-3", "WID-6", "ENC-6", "ENC-7", "ESC-1", "REL-3", "REL-5", "WID-8"],
      "each operator arm of ExpressionValue.resolve applies its own operator to (left, right) in that order and both operands are looked up independently; symbol collection precedes resolution "
      "over all statements (definition order irrelevant); undefined symbols raise; width predicates and two's-complement modulus follow the field width; statement-level handlers turn arithmetic errors "
      "(division by zero, out-of-range results) into a TranslationError.",
      "the arithmetic value of an expression for concrete operands and reduction modulo 65536; the address-expression path (calculate_address_offset) carries recorded findings.", ASM_ASSUME)
-prop("C05", ["DIR-1", "WID-3", "WID-1", "TAB-1", "TXT-1"],
+prop("C05", ["DIR-1", "WID-3", "WID-8", "WID-1", "TAB-1", "TXT-1", "ENC-7", "TXT-2"],
      "every pseudo row either has an emitting arm (FCB, FDB, FCC, RMB) with the directive's width/size facts (element widths 2/4 hex digits, single values hint 2/4 size 1/2, RMB n -> n zero bytes, "
      "self-sized lists and strings) or reaches the empty CodePackage; list separators; string delimiters must match; FCC's closing delimiter is the first occurrence after the opening one; "
      "two's-complement rendering at the directive's width.",
@@ -72,7 +72,7 @@ prop("C08", ["DSK-1", "DSK-2", "DSK-4", "DSK-5", "DSK-6", "DSK-7", "DSK-12", "DS
      "image size and track-17 offsets; FAT encoding written and read (links, last-granule marker with 1-9 sectors, free marker FF only); blanking confined to FAT bytes 68-255; allocation only "
      "from granules whose FAT byte is FF, marked before the next search; fill order a permutation of 0..67; implied length (sectors, last-sector bytes) equals the stream length by construction.",
      "chain disjointness and length arithmetic for concrete file sequences.")
-prop("C09", ["VF-1", "VF-4", "VF-6", "VF-8", "CAS-5", "DSK-5", "DSK-7", "DSK-6", "CAS-4", "CAS-3", "DET-2"],
+prop("C09", ["VF-1", "VF-4", "VF-6", "VF-8", "CAS-5", "DSK-5", "DSK-7", "DSK-6", "CAS-4", "CAS-3", "DET-2", "DSK-12", "DSK-13"],
      "append = list the existing image, append the new file at the end, rebuild the whole list in order into a fresh container; cassette writers only append to the buffer; disk allocation only takes "
      "free granules and free directory slots; a fresh DiskFile owns its own buffer (no shared class-level image); sniffing order disk, cassette, binary with matching kinds.",
      "the property over histories of interleaved add/save/re-open; kind recognition by content (recorded finding VF-6).")
@@ -81,31 +81,31 @@ prop("C10", ["VF-1", "VF-2", "VF-3", "VF-4", "VF-6", "VF-8", "CLI-1", "CLI-3"],
      "SourceFile.write_binary_contents, reached only through write_file from save_virtual_file and writing the whole buffer; file_exists is set exactly under os.path.exists; a kind mismatch raises; "
      "every CLI save site goes construct -> open -> add* -> save(append_mode=args.append) with the container kind of its switch; handlers report the error.",
      "nothing further of the control-flow part; content sniffing of arbitrary bytes is a recorded finding.")
-prop("C11", ["CLI-1", "VF-1", "VF-3", "CAS-3", "CAS-1", "CAS-5", "DSK-2", "DSK-3", "DSK-5", "DSK-12", "DSK-13", "LAY-1"],
+prop("C11", ["CLI-1", "VF-1", "VF-3", "CAS-3", "CAS-1", "CAS-5", "DSK-2", "DSK-3", "DSK-5", "DSK-12", "DSK-13", "LAY-1", "DET-2"],
      "the single CoCoFile built by assembler.main takes name = NAM or --name, load = exec = origin, data = get_binary_array() of the Program that was assembled, type 02, data type 00; each switch "
      "builds the container of its kind and adds that very object; cassette/disk blocks are dominated by the no-name guard; BinaryFile appends the data only; containers do not consume the data "
      "(the same object is written to several containers).",
      "that listing the produced image returns the program (C06/C07); END operand as entry address.")
-prop("C12", ["WID-1", "WID-3", "WID-5", "WID-6", "LAY-5", "ENC-4", "ENC-5", "ENC-7", "TAB-1", "TAB-2", "TAB-3", "TAB-4"],
+prop("C12", ["WID-1", "WID-3", "WID-8", "WID-5", "WID-6", "LAY-5", "ENC-4", "ENC-5", "ENC-7", "TAB-1", "TAB-2", "TAB-3", "TAB-4", "REL-1"],
      "modes the instruction lacks are rejected by every operand class; table cells exist only where the CPU has the mode; register recognition: every return path of the indexed encoders is realised "
      "by a grammar-valid operand only (probe spellings outside the grammar must raise); PSH/PUL/TFR/EXG reject unknown, own-stack and mixed-size registers; parse-time numeric limits; the width of "
      "`additional` at every sink against the mode's width.",
      "acceptance/rejection of arbitrary operand strings beyond the probe set and the classification cascade.", ASM_ASSUME)
-prop("C13", ["TERM-1", "ESC-1", "ESC-2", "CLI-1", "REL-3", "LAY-0"],
+prop("C13", ["TERM-1", "ESC-1", "ESC-2", "CLI-1", "REL-3", "LAY-0", "TXT-2"],
      "the sizing loop terminates because sizing fixes the size on every path; call cycles reachable from process are bounded (include trail checked, the others triaged); the explicit-raise escape "
      "fixpoint over the resolved call graph leaves only ParseError/TranslationError out of Program.process; every pass is wrapped by a handler that converts any exception into a diagnostic naming "
      "the statement; parse-phase first/last-character accesses are dominated by emptiness checks; the CLI handlers exit non-zero before any save.",
      "termination/robustness on all texts beyond these structural arguments (implicit exceptions inside the parse phase other than the indexed-access pattern).", ASM_ASSUME)
-prop("C14", ["CAS-1", "CAS-4"],
+prop("C14", ["CAS-1", "CAS-4", "CAS-3"],
      "on every path of every block writer: sync 55 3C, type 00/01/FF, length byte equal to the payload count and <= 255, payload fields in format order, checksum byte = (type + length + payload) mod 256 "
      "established by pairing every byte written with a checksum term, trailer 55; data payload byte i = data[i], continuation at the number of bytes written; file order leader, name-file, leader, "
      "data, EOF; only appends.",
      "nothing input-dependent: this property is decided completely under the stated assumptions.", ["data bytes are 0..255 and name characters are single-byte"])
-prop("C15", ["DSK-6", "DSK-7", "DSK-12", "DSK-13", "DSK-4", "VF-1", "DET-2", "DET-3"],
+prop("C15", ["DSK-6", "DSK-7", "DSK-12", "DSK-13", "DSK-4", "VF-1", "DET-2", "DET-3", "CLI-3"],
      "the fill order offers all 68 granules once; allocation only of free granules, exhaustion raises; directory scan covers at least 68 slots and a full directory raises; granule count = "
      "floor(stream/2304)+1 for every stream length; the image is rebuilt in memory before the host file is touched.",
      "exact granule counts for concrete sequences of additions.")
-prop("C16", ["CLI-3", "VF-1", "VF-3", "VF-8", "DET-3", "CAS-3", "CAS-5", "DSK-2", "DSK-3", "DSK-12", "DSK-13"],
+prop("C16", ["CLI-3", "VF-1", "VF-3", "VF-8", "DET-3", "CAS-3", "CAS-5", "DSK-2", "DSK-3", "DSK-12", "DSK-13", "DSK-4"],
      "conversion loops add every listed file itself, in listing order, filtered only by --files, and save once; both sides of the --files comparison carry the same case normalisation; --to_bin "
      "refuses more than one file before any add/save; reader/writer layouts of both containers agree; stream-length arithmetic for all file kinds.",
      "equality of the converted file set for concrete images.")
@@ -114,7 +114,7 @@ prop("C17", ["DET-1", "DET-2", "DET-3", "DET-4", "DET-5", "DET-6"],
      "shared default objects are never mutated; the source-line list is only read; no iteration over sets, no hash/id/time/random/environment reads in the core; no memoisation. Each rule carries "
      "an embedded bad/good canary pair evaluated on every run.",
      "nothing further under the assumption of insertion-ordered dicts.", ["dict insertion order (Python >= 3.7)"])
-prop("C18", ["TXT-1", "EXP-1", "LAY-1", "WID-3", "DIR-1", "REL-1", "REL-5", "ENC-7"],
+prop("C18", ["TXT-1", "EXP-1", "LAY-1", "WID-3", "WID-8", "DIR-1", "REL-1", "REL-5", "ENC-7", "TXT-2"],
      "the mnemonic is upper-cased before lookup; the line pattern splits label/mnemonic/operands for any amount of white space; accumulator offsets are recognised by whole-string comparison "
      "(no substring tests on operand text); addresses are prefix-determined (single forward pass); one-byte width only for values <= 255.",
      "the metamorphic relations themselves (relocation, renaming, reformatting) for concrete programs.", ASM_ASSUME)
